@@ -82,12 +82,14 @@ def explain_compiled(msgs, tag):
     ctx, a, b = (x[1:] if x[:1] in b" -+" else x for x in d)
     if EXT_LINE.match(a) and a.endswith(b" {") and b == a[:-2] + b";":
         return "F54"          # the nested extension instance is gone
-    if tag == b"yin_compiled" and a.endswith(b";") and b == a[:-1] + b" {" and (a.lstrip().startswith(b"default ") or ctx.lstrip().startswith(b"default ")):
+    if tag == b"yin_compiled" and a.endswith(b"\";") and b == a[:-1] + b" {" and not EXT_LINE.match(a):
         return "F60"          # the extension instances of a later default now sit under the first default
     if re.match(rb"^\s*bit ", ctx) and (EXT_LINE.match(a) or EXT_LINE.match(b)):
         return "F59"          # extension instances of `bit` are not printed
-    if EXT_LINE.match(a) or EXT_LINE.match(b):
-        return "F57"          # the compiled printer stops at the first instance that belongs to another substatement
+    if EXT_LINE.match(a) or EXT_LINE.match(b) or (a.endswith(b" {") and b == a[:-2] + b";") or (b.endswith(b" {") and a == b[:-2] + b";"):
+        # the compiled printer stops at the first instance that belongs to another substatement: an instance (or the block of the
+        # substatement that holds it) is in one compiled print and not in the other
+        return "F57"
     return None
 
 
@@ -237,7 +239,8 @@ def judge(cx, m, r, d, lex1, lex3):
             fail(law, "the second YANG print differs from the first", extra, recompute(case))
         elif law in ("yang_compiled", "yin_compiled"):
             other = y2 if law == "yang_compiled" else y3
-            extra = diff_extra(y1, other) if (law == "yang_compiled" and laws.get("yang_reprint") == "0") else {}
+            # (y1 and y2 carry the printed submodules too)
+            extra = diff_extra(y1, other) if (law == "yang_compiled" and y1 != y2) else {}
             case = dict(base); case.update({"law": law, "msgs_hex": hexs(msgs[-3000:])}); case.update(extra)
             fail(law, "the re-parsed module compiles to a different schema", extra, recompute(case))
         elif law == "yin_parse":
